@@ -465,6 +465,48 @@ def stream_accounting(F, R):
         R.ob('C08.stream-accounting', '%s::codec::Codec::encodev|PayloadChunk|append-only-within-remaining' % ver, ok5, 'the chunk is appended without the len <= remaining test')
 
 
+OWED_WRITERS = ('encode_publish', 'encode_publish_payload', 'enable_streaming', 'wait_publish_response', 'wait_publish_response_no_block')
+
+
+def owed_writers(F, R):
+    """`streaming_remaining` (payload bytes still owed for the PUBLISH whose header is on the wire) is the only thing that keeps
+    other packets out of a half-written payload. It is written by the functions that start a publish or write a chunk - and
+    by nobody else: a reset anywhere else (a teardown helper that also runs with the io still open) lets the next packet land
+    inside the payload."""
+    n = 0
+    for b in F.bodies.values():
+        for bi, t in b.calls_to(r'^std::cell::Cell::<T>::(set|take|replace|swap)$'):
+            if (call_recv_path(b, t, 0) or ('',))[-1] != 'streaming_remaining':
+                continue
+            n += 1
+            topf = re.sub(r'(::\{(closure|inl)#\d+\})+$', '', b.path)
+            m = re.match(r'^(v[35])::shared::MqttShared::(\w+)$', topf)
+            R.ob('C08.stream-accounting', '%s|writes-payload-owed|only-the-publish-and-chunk-encoders' % topf, bool(m) and m.group(2) in OWED_WRITERS,
+                 'the payload-owed counter is changed outside the functions that start a publish / write a chunk: while the io is still open the stream guard is switched off and the next packet is written into the middle of the streamed payload', b.loc(bi))
+    R.floor('C08.stream-accounting', 'stores of the payload-owed counter', n, 10)
+
+
+def stream_handle_flag(F, R):
+    """StreamingPayload keeps `inprocess = true` while payload is owed; its Drop force-closes the connection then (a PUBLISH
+    header without its payload is on the wire). Inside send() the flag is cleared only after the final chunk went through
+    encode_publish_payload - never before a suspension point, where a cancelled send() would leave a handle that looks
+    finished."""
+    n = 0
+    for ver in ('v3', 'v5'):
+        b = F.body('%s::sink::StreamingPayload::send::{closure#0}' % ver)
+        if b is None:
+            raise AnchorLost('%s::sink::StreamingPayload::send' % ver)
+        encs = {bi for bi, t in b.calls_to(r'^%s::shared::MqttShared::encode_publish_payload$' % ver)}
+        for bi, t in b.calls_to(r'^std::cell::Cell::<T>::(set|replace)$'):
+            if (call_recv_path(b, t, 0) or ('',))[-1] != 'inprocess' or const_of_local(b, t['args'][1]) != 0:
+                continue
+            n += 1
+            R.ob('C08.stream-accounting', '%s::sink::StreamingPayload::send|inprocess-cleared-only-after-the-chunk-was-encoded' % ver,
+                 bool(encs) and any(b.dominates(e, bi) for e in encs),
+                 'the handle is marked finished before its chunk is written (across the wait for write back-pressure): a send() future dropped while parked leaves a StreamingPayload whose Drop no longer closes the connection although payload is owed', b.loc(bi))
+    R.floor('C08.stream-accounting', 'places where a payload stream handle is marked finished', n, 2)
+
+
 def cmp_switches(b):
     out = []
     for sb in sorted(b.live):
@@ -540,4 +582,6 @@ def run(F, R):
     writers(F, R, cg_ok)
     validate_before_write(F, R)
     stream_accounting(F, R)
+    owed_writers(F, R)
+    stream_handle_flag(F, R)
     R.assume('IoRef::encode calls Encoder::encodev of the codec passed to it and has no rollback (ntex-io)')
